@@ -115,6 +115,11 @@ func UnpackRule(rule []string) (map[string]string, error) {
 
 		}
 
+		if dstType != "materials" && dstType != "products" {
+			return nil,
+				fmt.Errorf("%s Got:\n\t %s", errorMsg, rule)
+		}
+
 		return map[string]string{
 			"type":      ruleLower[0],
 			"pattern":   rule[1],
